@@ -68,7 +68,8 @@ impl Session {
         // size constants shouldn't be modified.
         let random_nonce: [u8; MESSAGE_NONCE_LENGTH - 4] = rand::random();
         #[cfg(feature = "verif-hooks")]
-        let random_nonce = crate::verif::nonce_random_override(random_nonce);
+        let random_nonce =
+            crate::verif::nonce_random_override(random_nonce, &self.keys.encryption_key);
         let mut message_nonce: MessageNonce = [0u8; MESSAGE_NONCE_LENGTH];
         message_nonce[..4].copy_from_slice(&self.counter.to_be_bytes());
         message_nonce[4..].copy_from_slice(&random_nonce);
